@@ -125,7 +125,7 @@ PROPS["C08"] = dict(level="other", gens=["go2ir", "ct"], custom="ct",
                                 "outcome table re-checked by the Lean kernel; IR programs are branch-free by construction; assembly covered by a committed control-flow skeleton; "
                                 "stream T0 validates the symbolic executor's output programs against the real functions")
 PROPS["C06"] = dict(level="proof", gens=["go2ir", "consts"],
-                    streams=[("V1", 700), ("K1", 400), ("G1", 500), ("S1", 1500), ("D1", 900), ("X1", 700), ("T1", 800), ("M1", 1200), ("S0", 800),
+                    streams=[("V1", 700), ("K1", 400), ("G1", 900), ("S1", 1500), ("D1", 900), ("X1", 700), ("T1", 800), ("M1", 1200), ("S0", 800),
                              ("H1", 700), ("H2", 500), ("E1", 400), ("Q1", 500), ("B1", 400), ("R1", 1200), ("L1", 600), ("F2", 2500), ("T0", 4000), ("K0", 2200), ("G2", 300)],
                     configs_quick=T4, configs_thorough=T4, thorough_mult=5,
                     theorems={**IR_CORE, **L0_FIELD, **L0_SCALAR},
